@@ -51,12 +51,14 @@ type FuncContract struct {
 	Pkg      string
 	Mode     Mode
 	Inline   bool
+	Field    bool
 	Trusted  bool
 	Pure     bool
 	Props    []string
 	Requires []*Clause
 	Ensures  []*Clause
 	Modifies []string // textual items
+	Preserves []string // with "modifies heap": components that keep their value nevertheless
 	HasModifies bool
 	Loops    map[int][]*Clause // invariants / decreases per loop ordinal
 	Monitors []*Monitor
@@ -236,6 +238,12 @@ func (cs *Contracts) LoadContractFile(path, pkgPath string) error {
 			if len(fields) == 0 {
 				return fail(l.line, "func: missing name")
 			}
+			isField := false
+			if fields[0] == "field" && len(fields) > 1 {
+				// contract on a function-typed struct field: applies to calls through that field
+				isField = true
+				fields = fields[1:]
+			}
 			cur = &FuncContract{Written: fields[0], Key: canonKey(fields[0], pkgPath), Pkg: pkgPath,
 				Loops: map[int][]*Clause{}, Waive: map[string]bool{}, File: path, Line: l.line, CallInv: map[string][]*Clause{}, CallAssert: map[string][]*Clause{}, CallWitness: map[string][]LetDef{},
 				Trusted: pkgPath == "trusted"}
@@ -257,6 +265,11 @@ func (cs *Contracts) LoadContractFile(path, pkgPath string) error {
 				default:
 					return fail(l.line, "func: unknown attribute %q", fields[i])
 				}
+			}
+			if isField {
+				cur.Key = "field:" + cur.Key
+				cur.Trusted = true // no body: the function value is universally quantified within this contract
+				cur.Field = true
 			}
 			if prev, dup := cs.Funcs[cur.Key]; dup {
 				return fail(l.line, "duplicate contract for %s (first at %s:%d)", cur.Key, prev.File, prev.Line)
@@ -320,6 +333,16 @@ func (cs *Contracts) LoadContractFile(path, pkgPath string) error {
 				it = strings.TrimSpace(it)
 				if it != "" && it != "nothing" {
 					cur.Modifies = append(cur.Modifies, it)
+				}
+			}
+		case "preserves":
+			if cur == nil {
+				return fail(l.line, "preserves outside func")
+			}
+			for _, it := range splitTop(rest) {
+				it = strings.TrimSpace(it)
+				if it != "" {
+					cur.Preserves = append(cur.Preserves, it)
 				}
 			}
 		case "loop":
@@ -396,8 +419,11 @@ func (cs *Contracts) LoadContractFile(path, pkgPath string) error {
 		case "ghost":
 			// ghost field (T).name type
 			fs := strings.Fields(rest)
+			if len(fs) == 5 && fs[3] == "->" {
+				fs = []string{fs[0], fs[1], fs[2] + " -> " + fs[4]}
+			}
 			if len(fs) != 3 || fs[0] != "field" {
-				return fail(l.line, "ghost: want 'ghost field (T).name type'")
+				return fail(l.line, "ghost: want 'ghost field (T).name type' or '... K -> V'")
 			}
 			i := strings.Index(fs[1], ").")
 			if !strings.HasPrefix(fs[1], "(") || i < 0 {
